@@ -100,3 +100,79 @@ def obl(name, ok, note, role='clause', kind='frame', line=None):
     return {'name': name, 'short': name, 'kind': kind, 'role': role, 'result': 'unsat' if ok else 'sat',
             'expect': 'unsat', 'ok': ok, 'time': 0.0, 'backend': 'ast-scan (exhaustive over the package)',
             'line': line, 'note': note, 'props': []}
+
+
+# ---------------------------------------------------------------------------------------------------------------------
+# shared mutable containers: module- and class-level lists / dicts / sets that package code mutates.
+# The symbolic executor reads module and class attributes from the live objects (their import-time content).  That is
+# only sound for containers nothing in the package writes to: a memo / registry filled by earlier calls has, at the
+# time a function under contract is called, whatever an arbitrary call history left in it.
+MUTATORS = {'append', 'extend', 'insert', 'pop', 'popitem', 'clear', 'update', 'setdefault', 'remove', 'add', 'discard',
+            'sort', 'reverse', '__setitem__', '__delitem__', 'appendleft', 'move_to_end'}
+_SHARED = None
+
+
+def _base_name(e):
+    if isinstance(e, ast.Name):
+        return e.id
+    if isinstance(e, ast.Attribute):
+        return e.attr
+    return None
+
+
+def container_mutation_sites():
+    """{name: [(rel, qualname, lineno, source)]}: every statement that mutates a container reached through a plain
+    name or an attribute of that name (by name only: conservative)"""
+    sites = {}
+
+    def hit(name, rel, q, n):
+        sites.setdefault(name, []).append((rel, q, getattr(n, 'lineno', 0), ast.unparse(n)[:120]))
+
+    def on(rel, q, n):
+        tgts = []
+        if isinstance(n, ast.Assign):
+            tgts = n.targets
+        elif isinstance(n, (ast.AugAssign, ast.AnnAssign)):
+            tgts = [n.target]
+        elif isinstance(n, ast.Delete):
+            tgts = n.targets
+        for t in tgts:
+            for e in ast.walk(t):
+                if isinstance(e, ast.Subscript) and isinstance(e.ctx, (ast.Store, ast.Del)):
+                    b = _base_name(e.value)
+                    if b:
+                        hit(b, rel, q, n)
+        if isinstance(n, ast.AugAssign) and q:       # x += [...] inside a function on a global list
+            b = _base_name(n.target)
+            if b and isinstance(n.target, ast.Attribute):
+                hit(b, rel, q, n)
+        if isinstance(n, ast.Call) and isinstance(n.func, ast.Attribute) and n.func.attr in MUTATORS:
+            b = _base_name(n.func.value)
+            if b:
+                hit(b, rel, q, n)
+    walk_package(on)
+    return sites
+
+
+def shared_mutable_roots():
+    """{id(container): (where, name, sites)} for module-/class-level containers of the live package that some package
+    code mutates *inside a function* (module-level initialisation code runs once, at import)"""
+    global _SHARED
+    if _SHARED is not None:
+        return _SHARED
+    import sys
+    sites = {k: [s for s in v if s[1]] for k, v in container_mutation_sites().items()}
+    sites = {k: v for k, v in sites.items() if v}
+    out = {}
+    for mname, mod in list(sys.modules.items()):
+        if not (mname == 'py_ballisticcalc' or mname.startswith('py_ballisticcalc.')) or mod is None:
+            continue
+        for name, val in list(vars(mod).items()):
+            if isinstance(val, (list, dict, set)) and name in sites and not name.startswith('__'):
+                out[id(val)] = (mname, name, sites[name])
+            if isinstance(val, type) and getattr(val, '__module__', '').startswith('py_ballisticcalc'):
+                for an, av in list(vars(val).items()):
+                    if isinstance(av, (list, dict, set)) and an in sites and not an.startswith('__'):
+                        out[id(av)] = (f'{val.__module__}.{val.__qualname__}', an, sites[an])
+    _SHARED = out
+    return out
